@@ -380,8 +380,14 @@ func randomSchedule(rng *rand.Rand, out *Out, chainD []*nom.DetailedMomentum, ta
 			}
 		}
 		k := 1 + rng.Intn(8)
-		if rng.Intn(6) == 0 {
+		switch rng.Intn(12) {
+		case 0, 1:
 			k = 1 + rng.Intn(30)
+		case 2:
+			// everything the producer has, in one delivery (initial sync: the downloader hands over up to 256 momentums);
+			// for most histories that is more than two election ticks ahead of the receiver's frontier
+			k = n - pos
+			out.Count(fmt.Sprintf("replay:deliver-rest-of-chain-in-one-call:%d-election-ticks-ahead", (pos+k)/tickMomentums()-pos/tickMomentums()))
 		}
 		lo := pos
 		switch rng.Intn(8) {
@@ -421,6 +427,10 @@ func runReplay(rng *rand.Rand, n int, out *Out, _ []string) {
 	for h := 0; h < n; h++ {
 		// every third history enforces the accelerator spork on its way
 		replayHistory(rng, out, h == 0, h%3 == 1)
+	}
+	// one long history per run (thorough: a few): old acknowledged momentums, gossip delays, large deliveries (longhist.go)
+	for i := 0; i < 1+n/60; i++ {
+		longHistory(rng, out)
 	}
 }
 
